@@ -275,7 +275,12 @@ def run_job(job: Dict[str, Any]) -> Dict[str, Any]:
     G.notes = []
     prep = getattr(mod, "prepare", None)
     if prep is not None:
-        prep(job["template"], job["data"])
+        try:
+            prep(job["template"], job["data"])
+        except Exception as e:  # noqa
+            # the concrete warm-up runs the harness once; when the code under test raises there, the traced run
+            # below meets the same exception and reports it (with a replay) instead of a harness error here
+            G.notes.append(f"prepare raised {type(e).__name__}: {e}")
     fn = getattr(mod, job["template"])
     mode = job["mode"]
     if mode == "replay":
